@@ -82,7 +82,7 @@ def build(tier, seed):
             oid="O2.special.t%d" % third, sig="a: int, b: int, conv: bool", pre=["0 <= a <= 7 and 0 <= b <= 7"], header=HDRT, timeout=T,
             body=r'''
     text = pick(ALPHA, a) + pick(ALPHA, b) + ALPHA[%d]
-    out = TextContent._convert_special_chars(NS(text=text, convert=conv))
+    out = TextContent._convert_special_chars(NS.of(TextContent, text=text, convert=conv))
     return run_events(out) == ref_events(text, conv)
 ''' % third,
             funcs=["rtflite.row:TextContent._convert_special_chars", "rtflite.services.text_conversion_service:TextConversionService.convert_text_content"] + F[:1],
@@ -93,7 +93,7 @@ def build(tier, seed):
         oid="O2.page_keywords", sig="k: int, c: str, conv: bool", pre=["0 <= k <= 2", "len(c) == 1 and 'a' <= c <= 'z'"], header=HDRT, timeout=T,
         body=r'''
     kw = pick([chr(92) + "pagenumber", chr(92) + "totalpage", chr(92) + "pagefield"], k)
-    out = TextContent._convert_special_chars(NS(text=c + " " + kw, convert=conv))
+    out = TextContent._convert_special_chars(NS.of(TextContent, text=c + " " + kw, convert=conv))
     want = pick([chr(92) + "chpgn ", chr(92) + "totalpage ", "{" + chr(92) + "field{" + chr(92) + "*" + chr(92) + "fldinst NUMPAGES }} "], k)
     return out == (c + " " + want if conv else c + " " + kw)
 ''',
@@ -154,9 +154,9 @@ def make(kind, kw):
         if not conv:
             return out == text            # ASCII text, conversion off: verbatim
         return run_events(out) == ref_events(ref_latex(text), True)
-    out1 = TextContent._convert_special_chars(NS(text=text, convert=first))
-    out2 = TextContent._convert_special_chars(NS(text=text, convert=not first))
-    out3 = TextContent._convert_special_chars(NS(text=text, convert=first))
+    out1 = TextContent._convert_special_chars(NS.of(TextContent, text=text, convert=first))
+    out2 = TextContent._convert_special_chars(NS.of(TextContent, text=text, convert=not first))
+    out3 = TextContent._convert_special_chars(NS.of(TextContent, text=text, convert=first))
     return want(out1, first) and want(out2, not first) and out3 == out1
 """,
         funcs=["rtflite.row:TextContent._convert_special_chars", "rtflite.services.text_conversion_service:TextConversionService.convert_text_content"],
